@@ -134,6 +134,20 @@ def make_pair(rng, kind):
     if kind == "unroll":
         if not has_ell:
             return None
+        # A name that the ground truth treats as one axis (depth 0) but that is written inside an ellipsis is numbered per
+        # repetition by einx (`d.0`, `d.1`) and unrelated to a `d` outside: the written-out form would need per-repetition
+        # names and constraints that the ground truth does not have.  Such descriptions are left to the other generators.
+        def _inside(it, under):
+            k = it[0]
+            if k == "ax":
+                return [it[1]] if under else []
+            if k in ("flat", "cat", "br"):
+                return [n for c in it[1] for n in _inside(c, under)]
+            if k == "ell":
+                return _inside(it[1], True)
+            return []
+        if any(truth["depth"].get(n, 0) == 0 for t in tensors for it in t for n in _inside(it, False)):
+            return None
         if rng.random() < 0.3:
             # scalar constraint on an ellipsis axis where the ground truth allows it
             for n in used:
@@ -357,7 +371,7 @@ def model_axes(sol, namemap):
 
 def compare_real(kind, p, rs, rl, api):
     """-> None or a description of the difference between the two real calls"""
-    if kind in ("unroll", "broadcast") and not rs["ok"] and rl["ok"] and rs.get("exc") == "RankError":
+    if kind in ("unroll", "broadcast") and not rs["ok"] and rs.get("exc") == "RankError":
         # the long form states the repetition count (as many copies / as long a tuple), the short form leaves it to the solver:
         # where einx cannot determine the count from the short form there is nothing to compare (theorem: Sols(long) = Sols(short) at THAT count)
         return None
